@@ -1405,6 +1405,7 @@ def ret_class_init(eng, path, env, fi, contract):
     src = new_pregex(eng, path, "cls", "Class")
     path.fields(me).update(path.fields(src))
     path.setf(me, "_Pregex__pattern", path.fields(src)["_Pregex__pattern"])
+    path.fields(me)["_Pregex__type"] = Unknown("inferred type of a class instance")     # Class, or Token after the one-character collapse
     path.setf(me, "_Class__is_negated", env["is_negated"])
     path.fields(me)["_ghost_classarg"] = env["pattern"]
     # __process (assumed): the verbose text lists exactly what the given bracket text lists
